@@ -72,6 +72,21 @@ func genWarrior(r *Rng, idx int64, d asm.Dialect, m, maxLen int) ([]mars.Insn, i
 		}
 		code[j] = ins
 	}
+	if r.Chance(1, 8) {
+		// the blank instruction (what an empty core cell holds) is an instruction like any other: warriors end,
+		// start or consist of it
+		blank := mars.Empty
+		if d == asm.D88 {
+			blank = mars.Insn{Op: mars.DAT, Mod: mars.MF, AM: mars.IMM, BM: mars.IMM}
+		}
+		for k := 0; k < 1+r.Intn(2) && k < l; k++ {
+			if r.Chance(1, 4) {
+				code[k] = blank
+			} else {
+				code[l-1-k] = blank
+			}
+		}
+	}
 	return code, r.Intn(l)
 }
 
